@@ -243,6 +243,12 @@ func reflectModels() map[string]modelFn {
 		}
 		return Bool{C: !rv.RO}
 	})
+	v("Comparable", func(ex *Exec, rv RV, a []Val) Val {
+		if rv.T == nil {
+			return Bool{C: true}
+		}
+		return Bool{C: ex.valComparable(rv.T, rv.val())}
+	})
 	v("CanSet", func(ex *Exec, rv RV, a []Val) Val { return Bool{C: rv.Addr != nil && !rv.RO} })
 	v("CanAddr", func(ex *Exec, rv RV, a []Val) Val { return Bool{C: rv.Addr != nil} })
 	v("Len", func(ex *Exec, rv RV, a []Val) Val { return goInt(ex.rvLen(rv)) })
@@ -534,6 +540,47 @@ func reflectModels() map[string]modelFn {
 		return RV{T: types.NewPointer(rv.T), V: Ptr{rv.Addr}, RO: rv.RO}
 	})
 	return m
+}
+
+// valComparable: reflect.Value.Comparable (dynamic for interfaces, arrays, structs).
+func (ex *Exec) valComparable(t types.Type, v Val) bool {
+	switch u := t.Underlying().(type) {
+	case *types.Interface:
+		ifc, ok := v.(Iface)
+		if !ok {
+			return true
+		}
+		return ex.valComparable(ifc.T, ifc.V)
+	case *types.Slice, *types.Map, *types.Signature:
+		return false
+	case *types.Array:
+		if arr, ok := v.(Struct); ok {
+			for _, e := range arr {
+				if !ex.valComparable(u.Elem(), e) {
+					return false
+				}
+			}
+		}
+		return types.Comparable(u.Elem()) || u.Len() == 0 || isIfaceType(u.Elem())
+	case *types.Struct:
+		st, _ := v.(Struct)
+		for i := 0; i < u.NumFields(); i++ {
+			var fv Val
+			if i < len(st) {
+				fv = st[i]
+			}
+			if !ex.valComparable(u.Field(i).Type(), fv) {
+				return false
+			}
+		}
+		return true
+	}
+	return true
+}
+
+func isIfaceType(t types.Type) bool {
+	_, ok := t.Underlying().(*types.Interface)
+	return ok
 }
 
 func valueKindName(rv RV) string {
